@@ -39,4 +39,9 @@ impl Clone for Operation {
     #[verifier::external_body]
     fn clone(&self) -> (r: Self) ensures r == *self { unimplemented!() }
 }
+// derived PartialEq is structural; with the view-injectivity axioms for String and TaskMap this is spec equality (trusted)
+impl vstd::std_specs::cmp::PartialEqSpecImpl for Operation {
+    open spec fn obeys_eq_spec() -> bool { true }
+    open spec fn eq_spec(&self, other: &Self) -> bool { *self == *other }
+}
 pub mod storage { pub use super::TaskMap; }
